@@ -6,7 +6,7 @@
       oracle's events returns its pattern-set definition on the oracle's matrix. *)
 From Coq Require Import ZArith List Bool Lia.
 From GeosV.Lib Require Import GeomDefs LocateDefs ValidDefs Geom GenPreludePred IM.
-From GeosV.C01 Require Import ArrangementDefs ArrangementProofs OracleDefs IMGen Pred PredSound.
+From GeosV.C01 Require Import ArrangementDefs ArrangementProofs OracleDefs OraclePred IMGen Pred PredSound.
 Import ListNotations.
 Local Open Scope Z_scope.
 
@@ -180,6 +180,8 @@ Proof.
       cbv [m_get_2 m_set_3 upd_nth nth Z.to_nat Pos.to_nat Pos.iter_op Init.Nat.add Z.mul Z.add Pos.mul Pos.add Pos.succ] in *;
       cbn [cmax]; rewrite !max_dim_cons; cbn [Z.eqb Pos.eqb andb]; repeat (f_equal; try lia).
 Qed.
+Lemma ofinal_final : forall evs, ofinal evs = final evs.
+Proof. reflexivity. Qed.
 Theorem final_matrix_of : forall evs, Forall ev_ok evs -> final evs = matrix_of evs.
 Proof.
   intros evs H. unfold final. rewrite fold_sal_cmax by (try assumption; try reflexivity; unfold m0, pst0, f_intMatrix, dF; repeat constructor; lia).
@@ -199,7 +201,7 @@ Theorem oracle_events_eq : forall r A B, oracle_events r A B = oracle_events_spe
 Proof. intros. apply events_with_ext. apply loc_dim_fast_eq. Qed.
 Theorem relate_oracle_spec : forall r A B, relate_oracle r A B = relate_spec r A B.
 Proof.
-  intros. unfold relate_oracle, relate_spec. rewrite oracle_events_eq. apply final_matrix_of. apply events_ok.
+  intros. unfold relate_oracle, relate_spec. rewrite oracle_events_eq, ofinal_final. apply final_matrix_of. apply events_ok.
 Qed.
 Lemma forallb_ext' : forall {X} (f g : X -> bool) l, (forall a, f a = g a) -> forallb f l = forallb g l.
 Proof. intros X f g l H. induction l as [|a l IH]; cbn; [reflexivity|]. rewrite H, IH. reflexivity. Qed.
@@ -330,4 +332,70 @@ Proof.
   repeat split;
   first [apply contains_sound | apply within_sound | apply covers_sound | apply coveredBy_sound | apply crosses_sound | apply overlaps_sound
         | apply touches_sound | apply intersects_sound | apply disjoint_sound | intros; apply equals_sound]; assumption.
+Qed.
+
+(* ------------------------------------------------------------------ without lines the boundary node rule is irrelevant *)
+Lemma events_with_ext2 : forall L L' r r' A B,
+  (forall q, L r A q = L' r' A q) -> (forall q, L r B q = L' r' B q) -> events_with L r A B = events_with L' r' A B.
+Proof.
+  intros L L' r r' A B HA HB. unfold events_with.
+  rewrite (filter_ext (witness_counts L r A B) (witness_counts L' r' A B)) by (intros w; unfold witness_counts; rewrite HA, HB; reflexivity).
+  apply map_ext. intros w. unfold event_of. rewrite HA, HB. reflexivity.
+Qed.
+Lemma in_boundary_0 : forall r, in_boundary r 0 = false.
+Proof. intros []; reflexivity. Qed.
+Lemma loc_dim_no_lines : forall r r' g p, lines_of g = [] -> loc_dim r g p = loc_dim r' g p.
+Proof.
+  intros r r' g p H. unfold loc_dim, loc_lines. rewrite H. cbn [end_count fold_right existsb]. rewrite !in_boundary_0. reflexivity.
+Qed.
+Lemma loc_dim_h_no_lines : forall r r' g q, lines_of g = [] -> loc_dim_h r g q = loc_dim_h r' g q.
+Proof. intros. unfold loc_dim_h. apply loc_dim_no_lines. rewrite lines_of_map, H. reflexivity. Qed.
+Theorem oracle_rule_irrelevant : forall r r' A B, lines_of A = [] -> lines_of B = [] ->
+  relate_oracle r A B = relate_oracle r' A B /\ side_ok r A B = side_ok r' A B.
+Proof.
+  intros r r' A B HA HB. split.
+  - unfold relate_oracle, oracle_events. f_equal. apply events_with_ext2; intros q; rewrite !loc_dim_fast_eq; apply loc_dim_h_no_lines; assumption.
+  - unfold side_ok, side_ok_with. apply forallb_ext'. intros w. unfold witness_counts.
+    rewrite !loc_dim_fast_eq, (loc_dim_h_no_lines r r' A), (loc_dim_h_no_lines r r' B) by assumption. reflexivity.
+Qed.
+
+(* ------------------------------------------------------------------ every witness is a proper homogeneous point (w > 0) *)
+Lemma hnorm_pos : forall q, 0 < hw q -> 0 < hw (hnorm q).
+Proof.
+  intros [[x y] w]. unfold hnorm, hw. cbn [snd]. intros Hw.
+  destruct (w =? 1); [exact Hw|]. destruct (Z.leb_spec (Z.gcd (Z.gcd x y) w) 1) as [|Hg]; [exact Hw|]. cbn [snd].
+  apply Z.div_str_pos. split; [lia|]. apply Z.divide_pos_le; [exact Hw | apply Z.gcd_divide_r].
+Qed.
+Lemma proper_pt_pos : forall a b o3 o4, o3 - o4 <> 0 -> 0 < hw (proper_pt a b o3 o4).
+Proof. intros a b o3 o4 H. unfold proper_pt, hw. destruct (Z.ltb_spec 0 (o3 - o4)); cbn [snd]; lia. Qed.
+Lemma seg_int_pos : forall a b c d q, In q (sres_nodes (seg_int a b c d)) -> 0 < hw q.
+Proof.
+  intros a b c d q. unfold seg_int.
+  destruct (opposite (orient a b c) (orient a b d) && opposite (orient c d a) (orient c d b)) eqn:E.
+  - cbn [sres_nodes In]. intros [<- | []]. apply hnorm_pos, proper_pt_pos.
+    apply andb_true_iff in E. destruct E as [_ E]. unfold opposite in E.
+    rewrite orb_true_iff, !andb_true_iff, !Z.ltb_lt in E. lia.
+  - destruct (nodup_pts _) as [|p [|p' l]]; cbn [sres_nodes In]; [tauto | intros [<- | []] | intros [<- | [<- | []]]]; cbn; lia.
+Qed.
+Lemma nodes_pos : forall A B q, In q (nodes A B) -> 0 < hw q.
+Proof.
+  intros A B q H. unfold nodes in H. apply (proj1 (nodup_by_seteq hpt_eqb hpt_eqb_eq _ q)) in H. unfold raw_nodes in H.
+  apply in_app_iff in H. destruct H as [H|H].
+  - apply in_map_iff in H. destruct H as (c & <- & _). cbn. lia.
+  - apply in_flat_map in H. destruct H as (s & _ & H). apply in_flat_map in H. destruct H as (t & _ & H). eapply seg_int_pos; exact H.
+Qed.
+Lemma eps_den_pos : 0 < EPS_DEN.
+Proof. reflexivity. Qed.
+Theorem witnesses_pos : forall A B w, In w (witnesses A B) -> 0 < hw (fst w).
+Proof.
+  intros A B w. unfold witnesses. rewrite in_app_iff, in_map_iff, in_flat_map.
+  intros [(q & <- & Hq) | (s & _ & H)]; [cbn [fst]; eapply nodes_pos; exact Hq|].
+  unfold seg_witnesses in H. apply in_flat_map in H. destruct H as ([p q] & Hpq & H).
+  unfold sub_edges in Hpq. apply in_flat_map in Hpq. destruct Hpq as (p' & Hp & Hpq). apply in_flat_map in Hpq. destruct Hpq as (q' & Hq & Hpq).
+  destruct (lt_on _ _ _ _ && _); [|destruct Hpq]. destruct Hpq as [E | []]. inversion E; subst p' q'. clear E.
+  apply filter_In in Hp, Hq. destruct Hp as (Hp & _), Hq as (Hq & _). apply nodes_pos in Hp, Hq.
+  assert (Hm : 0 < hw (midh p q)) by (unfold midh, hw in *; cbn [fst snd] in *; nia).
+  pose proof eps_den_pos as He.
+  assert (Hs : forall sg, 0 < hw (shift sg (fst s) (snd s) (midh p q))) by (intros sg; unfold shift; unfold hw at 1; cbn [snd]; nia).
+  cbn [fst snd] in H. destruct (existsb _ _); cbn [In] in H; [destruct H as [<- | [<- | [<- | []]]] | destruct H as [<- | []]]; cbn [fst]; auto.
 Qed.
